@@ -114,6 +114,17 @@ Theorem C10_close_nothing_more : forall vr iv es s s',
 Proof. exact Proofs_wedge.close_frozen. Qed.
 Print Assumptions C10_close_nothing_more.
 
+(* A Subscribe call that takes the lock after ANY Close call has returned is silently dropped:
+   nothing is registered, no forwarder runs, its channel is not closed — and by the theorem above
+   the state stays frozen, so it is never closed later either. A channel is thus either closed by
+   the time Close returns or never: "open at the return, closed a little later" cannot happen. *)
+Theorem C10_subscribe_after_close_dropped : forall vr iv s j s',
+  reachable vr iv s -> any_returned s -> step vr iv s (SubscribeLocked j) = Some s' ->
+  exists b, subs s' = subs s ++ [b] /\ accepted b = false /\ registered b = false /\
+            fwd b = Exited /\ user_closed b = false /\ any_returned s'.
+Proof. exact Proofs_wedge.subscribe_after_close_dropped. Qed.
+Print Assumptions C10_subscribe_after_close_dropped.
+
 (* ---- degenerate subscriptions: a context that has already ended ----------------------------- *)
 
 (* Subscribe on an OPEN batcher always registers the subscriber and starts its forwarder — also when
